@@ -19,8 +19,10 @@ type garbage struct {
 func mutateCond(r *Rng, valid string, other string) garbage {
 	switch r.Intn(14) {
 	case 11: // a member of an IN list or a BETWEEN bound that is not an operand, on an attribute the item may lack
-		left := pick(r, []string{"nosuch", "b", "n1", "m1.nokey", "l1[7]"})
-		bad := pick(r, []string{"a = :v0", "NOT b", "size(b)", "b AND n1", "attribute_exists(b)", "b.c = :v0"})
+		// ... or on a left operand that equals the member before the bad one (":v0 IN (:v0, bad)"): a match does not
+		// make the rest of the list well-formed
+		left := pick(r, []string{"nosuch", "b", "n1", "m1.nokey", "l1[7]", ":v0", ":v0"})
+		bad := pick(r, []string{"a = :v0", "NOT b", "size(b)", "b AND n1", "attribute_exists(b)", "b.c = :v0", "NOT :v0", ":v0 = :v0"})
 		if r.Chance(70) {
 			return garbage{left + " IN (:v0, " + bad + ")", "in-operand", true}
 		}
@@ -202,11 +204,14 @@ func genReservedCases() {
 		{"match", "%s = :v"}, {"match", ":v = %s"}, {"match", "attribute_exists(%s)"}, {"match", "%s BETWEEN :v AND :v"},
 		{"match", ":v BETWEEN %s AND :v"}, {"match", "%s IN (:v)"}, {"match", ":v IN (%s)"}, {"match", "%s.k = :v"}, {"match", "%s[0] = :v"},
 		{"match", "NOT %s = :v"}, {"match", "size(%s) > :n"}, {"match", "begins_with(%s, :v)"},
+		// positions next to an operand that could decide the expression early: the word is still a syntax matter
+		{"match", "nosuch IN (:v, %s)"}, {"match", "zz IN (:y, %s)"}, {"match", "zz = :y OR %s = :v"}, {"match", "zz = :v AND %s = :v"},
+		{"match", "nosuch BETWEEN %s AND :v"}, {"match", "attribute_exists(zz) OR attribute_exists(%s)"},
 		{"update", "SET %s = :v"}, {"update", "SET zz = %s"}, {"update", "REMOVE %s"}, {"update", "ADD %s :n"}, {"update", "DELETE %s :ss"},
 		{"update", "SET zz = if_not_exists(%s, :v)"}, {"update", "SET %s[0] = :v"}, {"update", "SET zz = %s + :n"},
 	}
 	words := reservedWordList()
-	vals := map[string]AV{":v": S("x"), ":n": Nn("1"), ":ss": {T: "SS", Set: [][]byte{[]byte("x")}}}
+	vals := map[string]AV{":v": S("x"), ":y": S("y"), ":n": Nn("1"), ":ss": {T: "SS", Set: [][]byte{[]byte("x")}}}
 	for _, w := range words {
 		for ci, cw := range []string{w, strings.ToLower(w), strings.ToUpper(w[:1]) + strings.ToLower(w[1:])} {
 			for pi, p := range positions {
